@@ -120,3 +120,34 @@ contract(NE, props=['C13'], returns='ParsedOperand?',
                   ' and not mentions_register(result._argument._parsed_expression, register_labels))',
                   'implies(result is not None, result._operand is self)'],
          modifies=[], allocates=True, no_frame_check=True)
+
+# ---- operand sets of a variant: one alternative per position, disallowed combinations skipped --------------------------
+OSM = 'bespokeasm.assembler.model.operand_parser:OperandSetsModel.find_operands_from_operand_sets'
+contract('bespokeasm.assembler.model.operand_parser:MatchedOperandSet.__init__', props=['C13'],
+         ensures=['self._operands is operands', 'self._reverse_arg_order == reverse_arg_order',
+                  'self._reverse_op_bytecode_order == reverse_op_bytecode_order'],
+         modifies=['self._operands', 'self._reverse_arg_order', 'self._reverse_op_bytecode_order'])
+
+
+@spec
+def listed_combo(cfg_pairs, ids, n):
+    """the ordered list of operand ids is one of the configured disallowed combinations (same ids, same order)"""
+    return exists(lambda k: 0 <= k and k < cfg_len(cfg_pairs) and cfg_len(cfg_item(cfg_pairs, k)) == n
+                  and forall(lambda j: implies(0 <= j and j < n, cfg_str(cfg_item(cfg_item(cfg_pairs, k), j)) == ids[j])))
+
+
+IDS = 'lam(lambda j: elems(result._operands)[j]._operand._id)'
+contract(OSM, props=['C13'], returns='MatchedOperandSet?',
+         may_raise={'SystemExit': 'True', 'NotImplementedError': 'True', 'AttributeError': 'True'},
+         ensures=[
+             # a match has one parsed operand per configured position ...
+             'implies(result is not None, len(result._operands) == len(self._operand_sets) and len(operands) == len(self._operand_sets))',
+             # ... and is never a combination that the definition disallows (compared as an ordered list of operand ids)
+             'implies(result is not None and "disallowed_pairs" in self._config, not listed_combo('
+             f'self._config["disallowed_pairs"], {IDS}, len(result._operands)))'],
+         modifies=[], allocates=True, no_frame_check=True,
+         locals={'matched_operands': 'list[ParsedOperand]', 'operand_ids': 'list[str]'},
+         loops={'0': dict(idx='ci', allocates=True, modifies=['matched_operands[*]'],
+                          inv=['len(matched_operands) == ci', 'ci <= len(self._operand_sets)',
+                               'len(operands) == len(self._operand_sets)', 'fresh(matched_operands)',
+                               'forall(lambda j: implies(0 <= j and j < ci, elems(matched_operands)[j]._operand is not None))'])})
